@@ -39,8 +39,10 @@ def gen_scenario(rng, small=False):
             elif mode == "any":
                 for t in tasks:
                     t["acp"] = True
-                for t in tasks[1:]:
-                    if rng.random() < 0.5:
+                # one task (any position) certainly ends by itself; each of the others may be eternal
+                keep = rng.randrange(n)
+                for i, t in enumerate(tasks):
+                    if i != keep and rng.random() < 0.5:
                         t["eternal"] = True
                         t.pop("iterations")
             total = sum(t["clients"] for t in tasks)
@@ -56,6 +58,11 @@ def gen_scenario(rng, small=False):
                     if t.pop("eternal", None):
                         t["iterations"] = rng.randint(1, 4)
             sched.append({"par": tasks, "clients": ov})
+    # elements that use fewer clients than the race has: one element that needs more clients than every other one, so that the others
+    # leave clients idle — and, with fewer cores than clients, workers that host both a participating and an idle client
+    if rng.random() < 0.3:
+        most = max((e["leaf"]["clients"] if "leaf" in e else (e.get("clients") or sum(t["clients"] for t in e["par"]))) for e in sched)
+        sched.insert(rng.randrange(len(sched) + 1), {"leaf": {"name": next(names), "clients": most + rng.randint(1, 2), "iterations": rng.randint(1, 2)}})
     # a task without any loop control (no iterations, no time period) runs exactly once: leave the iteration count out sometimes
     for e in sched:
         for t in ([e["leaf"]] if "leaf" in e else e["par"]):
@@ -466,5 +473,5 @@ def shape_class(sc):
 
 
 STREAMS = [
-    Stream("simulated_races", gen, run, quick=640, thorough=200000, shards=16),
+    Stream("simulated_races", gen, run, quick=2560, thorough=200000, shards=16),
 ]
